@@ -209,6 +209,11 @@ class HostileSvc(Service):
         HRAN.append('take')
         return 1
 
+    @rpc(Integer, _returns=Integer, _body_style='bare')
+    def ping(ctx, a):
+        HRAN.append('ping')
+        return a
+
 
 def _soap(inner):
     return ('<s:Envelope xmlns:s="%s">%s</s:Envelope>' % (P.SOAP_ENV, inner)).encode()
@@ -231,6 +236,7 @@ HOSTILE = {     # (input protocol, validator) -> {name: (body, wsgi env)}
         'duration overflow': (b'<take xmlns="tns"><item><dur>P99999999999D</dur></item></take>', {}),
         'text and tail around members': (b'<take xmlns="tns">x<item>y<name>a</name>z</item>w</take>', {}),
         'nested same element': (b'<take xmlns="tns"><item><item><name>a</name></item></item></take>', {}),
+        'bytes invalid for the declared encoding': (b'<?xml version="1.0" encoding="ascii"?><take xmlns="tns"><item><name>\xe9</name></item></take>', {}),
     },
     'soap11': {
         'empty Body': (_soap('<s:Body/>'), {}),
@@ -243,6 +249,8 @@ HOSTILE = {     # (input protocol, validator) -> {name: (body, wsgi env)}
         'unknown charset': (_soapb('<take xmlns="tns"><item><name>a</name></item></take>'), {'CONTENT_TYPE': 'text/xml; charset=bogus-9'}),
         'empty charset': (_soapb('<take xmlns="tns"><item><name>a</name></item></take>'), {'CONTENT_TYPE': 'text/xml; charset='}),
         'quoted empty charset': (_soapb('<take xmlns="tns"><item><name>a</name></item></take>'), {'CONTENT_TYPE': 'text/xml; charset=""'}),
+        'bytes invalid for the declared charset': (_soapb('<take xmlns="tns"><item><name>').replace(b'</s:Body></s:Envelope>', b'') + b'\xff\xfe</name></item></take></s:Body></s:Envelope>', {'CONTENT_TYPE': 'text/xml; charset=utf-8'}),
+        'cyclic href': (_soapb('<take xmlns="tns"><item id="a" href="#b"/><x id="b" href="#a"/></take>'), {}),
         'entity reference as child of an object': (b'<!DOCTYPE x [<!ENTITY x "y">]>' + _soapb('<take xmlns="tns"><item>&x;</item></take>'), {}),
     },
     'json': {
@@ -259,6 +267,10 @@ HOSTILE = {     # (input protocol, validator) -> {name: (body, wsgi env)}
         'empty charset': (b'{"take": {"item": {"name": "a"}}}', {'CONTENT_TYPE': 'application/json; charset='}),
         'quoted empty charset': (b'{"take": {"item": {"name": "a"}}}', {'CONTENT_TYPE': 'application/json; charset=""'}),
         'charset with junk': (b'{"take": {"item": {"name": "a"}}}', {'CONTENT_TYPE': 'application/json; charset=utf-8; charset=x; =;;'}),
+        'bytes invalid for the declared charset': (b'{"take": {"item": {"name": "\xe9"}}}', {'CONTENT_TYPE': 'application/json; charset=ascii'}),
+        'bare primitive': (b'{"ping": 5}', {}),
+        'bare primitive of the wrong kind': (b'{"ping": {"a": 5}}', {}),
+        'bare primitive null': (b'{"ping": null}', {}),
         'deep nesting': (b'[' * 5000 + b']' * 5000, {}),
         'huge exponent': (b'{"take": {"item": {"many": [1e999999]}}}', {}),
         'duplicate keys': (b'{"take": {"item": {"name": "a", "name": "b"}}, "take": 5}', {}),
@@ -273,17 +285,36 @@ HOSTILE = {     # (input protocol, validator) -> {name: (body, wsgi env)}
         'unknown charset': (b'take: {item: {name: a}}', {'CONTENT_TYPE': 'text/yaml; charset=bogus-9'}),
         'empty charset': (b'take: {item: {name: a}}', {'CONTENT_TYPE': 'text/yaml; charset='}),
         'quoted empty charset': (b'take: {item: {name: a}}', {'CONTENT_TYPE': 'text/yaml; charset=""'}),
+        'invalid utf-8': (b'take: {item: {name: "\xff\xfe"}}', {}),
+        'bytes invalid for the declared charset': (b'take: {item: {name: "\xe9"}}', {'CONTENT_TYPE': 'text/yaml; charset=ascii'}),
+        'native timestamp for a date-less member': (b'take: {item: {dur: 2001-01-01, amount: 2001-01-01 10:00:00}}', {}),
         'timestamp for text': (b'take: {item: {name: 2001-01-01}}', {}),
         'set for an array': (b'take: {item: {tags: !!set {a, b}}}', {}),
     },
 }
+try:
+    import msgpack as _mp
+    HOSTILE['msgpack'] = {
+        'key that is not UTF-8': (_mp.packb({b'\xff\xfe': {}}), {}),
+        'method key of the wrong kind': (_mp.packb({5: {}}), {}),
+        'two methods': (_mp.packb({'take': {}, 'ping': 1}), {}),
+        'not a map': (_mp.packb([1, 2, 3]), {}),
+        'truncated': (_mp.packb({'take': {'item': {'name': 'abc'}}})[:-2], {}),
+        'member key that is not UTF-8': (_mp.packb({'take': {'item': {b'\xff': 1}}}), {}),
+        'text that is not UTF-8': (_mp.packb({'take': {'item': {'name': b'\xff\xfe'}}}), {}),
+        'extension type': (_mp.packb({'take': {'item': {'name': _mp.ExtType(5, b'x')}}}), {}),
+        'timestamp extension': (b'\x81\xa4take\x81\xa4item\x81\xa4name\xd6\xff\x00\x00\x00\x01', {}),
+    }
+except ImportError:
+    pass
 HOSTILE_APPS = {}
 
 
 def _hostile_app(proto, validator):
     key = (proto, validator)
     if key not in HOSTILE_APPS:
-        Pc = {'json': JsonDocument, 'xml': XmlDocument, 'soap11': Soap11, 'yaml': YamlDocument}[proto]
+        from spyne.protocol.msgpack import MessagePackDocument
+        Pc = {'json': JsonDocument, 'xml': XmlDocument, 'soap11': Soap11, 'yaml': YamlDocument, 'msgpack': MessagePackDocument}[proto]
         HOSTILE_APPS[key] = Application([HostileSvc], 'tns', in_protocol=Pc(validator=validator), out_protocol=Pc())
     return HOSTILE_APPS[key]
 
@@ -295,7 +326,7 @@ def _hostile_app(proto, validator):
                     'spyne.protocol.soap.soap11.Soap11.decompose_incoming_envelope',
                     'spyne.protocol.yaml.YamlDocument.create_in_document',
                     'spyne.protocol.dictdoc.hier.HierDictDocument._doc_to_object'],
-         bounds={'requests': 'the concrete protocol-specific hostile documents listed in HOSTILE (11 XML, 11 SOAP, 16 JSON, 11 YAML), '
+         bounds={'requests': 'the concrete protocol-specific hostile documents listed in HOSTILE (12 XML, 13 SOAP, 20 JSON, 14 YAML, 9 MessagePack), '
                              'each through WsgiApplication, validators soft / None (/ lxml for XML and SOAP), chunked or not'})
 def hostile_documents(sx, p):
     """a structurally hostile document is answered (normally or with a Client fault) - nothing escapes the WSGI callable,
